@@ -184,6 +184,8 @@ class WFrame:
         self.written.append(idx)
 
     def hv_getattr(self, ex, attr, pc):
+        if attr == "columns":
+            return list(self.cols)
         if attr in self.cols:
             return self.cols[attr]
         return NotImplemented
